@@ -159,9 +159,8 @@ Lemma filter_section_fresh w p nodes o fl w' r : filter_section w p nodes o fl =
 Proof.
   unfold filter_section. intros H. cbv zeta in H.
   destruct (pd_ranges p) as [|rs rss] eqn:Er.
-  - unfold first_of_key in H. fold (pod_key p) in H. destruct (by_key (w_ipam w) (pod_key p)) as [|kv l]; [by right|]. left.
-    destruct (o_first o) as [x|]; [|by inversion H]. destruct (i_alloc (w_ipam w) !! x) as [e|]; [|by inversion H].
-    destruct (str_eqb _ _); by inversion H.
+  - fold (pod_key p) in H. destruct (first_of_key (w_ipam w) (pod_key p) o) as [[x|]|] eqn:Ef; [left; by inversion H| |left; by inversion H].
+    right. by apply first_of_key_none in Ef as [? _].
   - left.
     head_destruct H; [by inversion H|].
     head_destruct H; [by inversion H|].
